@@ -32,7 +32,7 @@ def simulate_cluster(tag, num, depth, admin=False, ingr=False, maxwl=4, maxnp=3,
     for ln in text.splitlines():
         if ln.startswith('The number of states generated:'):
             states = int(ln.split(':')[1].strip())
-    if rc != 0 or 'Error:' in text or nb == 0:
+    if rc != 0 or vlib.has_tlc_error(text) or nb == 0:
         raise Infra('Cluster simulation failed (rc=%s, behaviours=%d):\n%s' % (rc, nb, '\n'.join(l for l in text.splitlines() if not l.startswith('"BEHAVIOUR'))[-3000:]))
     return out, states, nb
 
@@ -49,7 +49,7 @@ def check_laws_on_reference(tag, num, depth, admin=False, workers=8, timeout=150
     for ln in text.splitlines():
         if ln.startswith('The number of states generated:'):
             states = int(ln.split(':')[1].strip())
-    if 'is violated' in text or 'Error:' in text or rc != 0:
+    if 'is violated' in text or vlib.has_tlc_error(text) or rc != 0:
         msg = '\n'.join(l for l in text.splitlines() if not l.startswith('"BEHAVIOUR'))[-3000:]
         raise Infra('a law of Laws.tla does not hold on the reference (specification error, not a verdict about the code):\n' + msg)
     return states
